@@ -20,7 +20,8 @@ LEVEL = "proof"
 TRUSTED = ["hand-written model Model/Roc.lean of roc_curve_data -> binary_discretise(>=) -> POD/POFD -> -trapezoid; the POD/POFD maps, quotients, weighting/summation frame and the roc call site are regenerated from the source (tools/gen/Roc.py) and proved equal to the model, the rest is "
            "(tied by differential correspondence only, no translator)",
            "the harness groups the cells of the reduced dimensions per preserved index (dimension handling is C01)"]
-ASSUMPTIONS = ["forecasts / thresholds are dyadic in [0, 1.25], weights small dyadic: sums and comparisons are exact in "
+ASSUMPTIONS = ["forecasts / thresholds are dyadic in [0, 1.25] (including values a hair off a threshold: t -+ 2^-30 and the "
+               "neighbouring float, handed to Lean as exact rationals), weights small dyadic: sums and comparisons are exact in "
                "float64; quotients compared to 1e-9",
                "no dask input (F14 belongs to C04); fcst / obs / weights share coordinate labels in the same order",
                "float rounding is not modelled"]
@@ -35,7 +36,8 @@ MANIFEST = dict(
          "one half) whenever the thresholds contain every forecast value and a value above the largest. The POD/POFD maps, "
          "quotients, the weighting/summation frame and the roc call site (operator.ge, -1 * trapezoid(pod, pofd)) are "
          "regenerated from binary_impl.py / roc_impl.py on every run and proved equal to the model. The model is tied to the code by a differential "
-         "correspondence (ties with thresholds, NaN, weights, reductions / preserved dims, argument checks); the same "
+         "correspondence (ties with thresholds, forecasts a hair below / above a threshold, NaN, weights, reductions / "
+         "preserved dims incl. dimensions only obs / only fcst / only weights carry, argument checks); the same "
          "statements and the Mann-Whitney equality (thresholds containing 0, every forecast value and a larger value; weighted "
          "form with weights) are evaluated on the implementation against the Lean counting spec in exact rationals, "
          "exhaustively for all forecast/observation vectors up to length 3 (quick) / 5 (thorough) over a 4-value pool.",
@@ -47,8 +49,10 @@ MANIFEST = dict(
          "Not modelled: dask input (F14, C04), differently ordered coordinates, non-binary observations with check_args=False.",
     technique="Lean 4 theorems over a hand model + differential correspondence + exact counting / Mann-Whitney oracle",
     design="6/C14")
-RULE = ("one case = (forecast array from a 5-value pool so most values coincide with a threshold, binary obs with NaN, "
-        "threshold list, weights, reduction, check_args); distinct = distinct canonical call; non-trivial = some non-NaN "
+RULE = ("one case = (forecast array from a 5-value pool so most values coincide with a threshold -- in 30 % of the calls "
+        "moved a hair (2^-30 or one ulp) below / above it --, binary obs with NaN, threshold list, weights, reduction, "
+        "check_args; in 1/3 of the calls obs carries a dimension the forecast lacks and the forecast possibly one obs "
+        "lacks, weights on any of them or on a dimension of their own); distinct = distinct canonical call; non-trivial = some non-NaN "
         "POD or POFD and not malformed")
 
 NAN = float("nan")
@@ -177,6 +181,7 @@ def hair(rng, v):
         opts += [v - EPS, float(np.nextafter(v, -1.0))]
     if v < 1:
         opts += [v + EPS, float(np.nextafter(v, 2.0))]
+    opts = [x for x in opts if 0.0 <= x <= 1.0]      # (a value that already is a hair off 1 stays inside)
     return rng.choice(opts) if opts else v
 
 
